@@ -48,6 +48,11 @@ def isPairEndTok (t : Option Tok) : Bool :=
   | some (.op o) => has o.ty T.pairEnd
   | _ => false
 
+def isIncDecTok (t : Option Tok) : Bool :=
+  match t with
+  | some (.op o) => has o.ty T.increment || has o.ty T.decrement
+  | _ => false
+
 def isOperatorTok (t : Option Tok) : Bool :=
   match t with
   | some t => has t.opType T.unary || has t.opType T.binary
@@ -119,7 +124,7 @@ def shStep (s : Sh) (t : Tok) (next : Option Tok) : Option Sh :=
             some { s with needOperand := true, content := .other, prev := some (.op o'), prevCastEnd := false }
           else none
         else if has o'.ty T.rightUnary then
-          if next.isNone || isPairEndTok next || isOperatorTok next then
+          if (next.isNone || isPairEndTok next || isOperatorTok next) && !(isPostfixTok s.prev && isIncDecTok next) then
             some { s with content := .other, prev := some (.op o'), prevCastEnd := false }
           else none
         else none
